@@ -54,7 +54,8 @@ def run(ctx):
         def remake(ss):
             return (lambda: fn(list(ss), max_edits=k, custom_distance='hamming', **kw)), (model, [k, list(ss)])
         th, rq = remake(seqs)
-        return Case('%s[hamming] k=%d n=%d' % (engine, k, len(seqs)), th, rq, seqs=list(seqs), site='nn.%s[hamming]' % engine,
+        tag = ''.join(',%s=%s' % kv for kv in sorted(kw.items()))
+        return Case('%s[hamming%s] k=%d n=%d' % (engine, tag, k, len(seqs)), th, rq, seqs=list(seqs), site='nn.%s[hamming%s]' % (engine, tag),
                     remake=remake, nontrivial=nontriv_for(list(seqs)))
 
     L = 3 if ctx.quick else 4
@@ -86,6 +87,11 @@ def run(ctx):
             k = min(k, 2)
         ctx.count(eng)
         ctx.count('k=%d' % k)
+        if eng == 'kdtree' and t % 8 == 5:
+            # the same search on two worker processes: one search per length class, every class against its own sequences
+            ctx.count('kdtree_n_cpu=2')
+            cases.append(mk(eng, seqs, k, n_cpu=2))
+            continue
         cases.append(mk(eng, seqs, k))
     # two-collection form
     for t in range(20 if ctx.quick else 400):
@@ -106,5 +112,6 @@ def replay(ctx, obj):
     seqs, k = r['seqs'], r['request'][1][0]
     eng = (obj.get('site') or 'nn.kdtree[hamming]').split('.')[1].split('[')[0]
     fn = getattr(nn, eng, nn.kdtree)
-    run_cases(ctx, [Case('replay', lambda: fn(list(seqs), max_edits=k, custom_distance='hamming'),
+    kw = dict(n_cpu=int((obj.get('site') or '').split('n_cpu=')[1].rstrip(']'))) if 'n_cpu=' in (obj.get('site') or '') else {}
+    run_cases(ctx, [Case('replay', lambda: fn(list(seqs), max_edits=k, custom_distance='hamming', **kw),
                          ('api_brute_self_ham', [k, seqs]), seqs=seqs, site=obj.get('site'))])
